@@ -40,7 +40,7 @@ is_6531_local (const char *start, const char *end)
     int quote = 0;
     int qend = 0; /* previous character closed a quoted-string */
     int ch;
-    int prev = 0; /* previous index of non-ASCII character */
+    int prev = 0; /* byte index of the previous character */
     utf8_decode_t u;
 
 
@@ -54,6 +54,10 @@ is_6531_local (const char *start, const char *end)
             /* a quoted-string is a whole word: only '.' may follow it */
             if (qend)
                 return inverse(EEAV_LPART_MISPLACED_QUOTE);
+            /* quoted-pairSMTP escapes printable ASCII only */
+            if (qpair)
+                return inverse(EEAV_LPART_SPECIAL);
+            prev = utf8_decode_at_byte (&u);
             continue;
         }
 
@@ -82,7 +86,7 @@ is_6531_local (const char *start, const char *end)
                 /* quote-strings are allowed at the start
                  * or with preciding '.' only
                  */
-                if (prev == 0 || start[prev] == '.')
+                if (utf8_decode_at_byte (&u) == 0 || start[prev] == '.')
                     quote = 1;
                 else
                     return inverse(EEAV_LPART_MISPLACED_QUOTE);
